@@ -315,6 +315,8 @@ check("C19",
            "counts before construction and no delete of a non-live pointer (an imbalance must reproduce on replay); plus 29 chains of "
            "50 Lexicons with overlapping lifetimes; the same histories to depth 2 (3) under ASan+UBSan for stale accesses; one operation asks "
            "seven kinds of sequence for the elements at size(), size()+1, size()+7: a reference instead of a refusal is an access outside live objects. "
+           "Size sweep: for EVERY n <= 150 (600) a Lexicon holding exactly n members of every kind (declared names and their redeclarations, fields, "
+           "warehouse products and sums, literals, pointer and qualified types, parameters, enumerators, handlers, expression-list members, sub-regions) is built and destroyed: balance zero. "
            "distinct_nontrivial = ordered histories of >= 2 operations.",
       text="Every operation history up to the bound is executed on the real Lexicon and destroyed; allocation balance is "
            "decided by exact accounting, stale access by sanitizers on every explored execution.",
